@@ -23,7 +23,7 @@ ANCHORS = ['array:Array.copy', 'array:asarray', 'array:_archunkgenerator', 'ragg
            'raggedarray:asraggedarray', 'datadir:DataDir.archive', 'array:Array.archive', 'raggedarray:RaggedArray.archive']
 REQUIRED = ['mon.copy_equals_cast', 'mon.metadata_equal', 'mon.independence', 'mon.archive_bytes', 'mon.archive_reopen',
             'mon.archive_overwrite_gate', 'mon.ragged_copy']
-MIN_NONTRIVIAL = {'quick': 500, 'thorough': 6000}
+MIN_NONTRIVIAL = {'quick': 1500, 'thorough': 12000}
 
 SHAPES = [(0,), (1,), (5,), (0, 2), (4, 3), (2, 1, 3), (3, 2, 2, 1)]
 RAGGED = {'none': [], 'onlyempty': [0, 0], 'mixed': [2, 0, 3], 'one': [1], 'seven': [1, 0, 2, 1, 1, 0, 4]}
@@ -32,13 +32,13 @@ RAGGED = {'none': [], 'onlyempty': [0, 0], 'mixed': [2, 0, 3], 'one': [1], 'seve
 def cases(tier, seed):
     rng = random.Random(f'C15:{seed}')
     combos = [(t, b) for t in gens.T13 for b in gens.BO]
-    n = 450 if tier == 'quick' else 6000
+    n = 1400 if tier == 'quick' else 12000
     for k in range(n):
         nt, bo = combos[k % len(combos)]
         yield {'t': 'copy', 'numtype': nt, 'bo': bo, 'shape': list(SHAPES[(k // 26) % len(SHAPES)] if k < 26 * 7 else rng.choice(SHAPES)),
                'dtypearg': [None, 'other', 'swap'][k % 3], 'chunklen': [1, 3, 'len', None][k % 4] if k % 40 else None,
                'accessmode': ['r', 'r+'][k % 2], 'md': k % 3 == 0, 'mutate': ['src', 'copy'][(k // 2) % 2], 'k': k}
-    n = 160 if tier == 'quick' else 2500
+    n = 500 if tier == 'quick' else 5000
     for k in range(n):
         nt, bo = combos[(k * 3) % len(combos)]
         pat = list(RAGGED)[k % len(RAGGED)]
